@@ -34,7 +34,11 @@ HarVerdict == IF ~C.har.ok THEN {<<"har", 0, "malformed">>}
               ELSE IF Len(C.har.entries) # 1 THEN {<<"har", Len(C.har.entries), "count">>}
               ELSE {<<"har", 1, tag>> : tag \in (IF C.uriExact THEN HarDiffs(C.har.entries[1], C.x, C.preserve)
                                                   ELSE HarDiffs(C.har.entries[1], C.x, C.preserve) \ {"uri"})}
+(* a lone surrogate is not a Unicode scalar value - YAML cannot represent it (readers disagree on the escape "\uD800");
+   the cassette of a text field that contains one is outside the judged fragment *)
+TextFields == {"title", "message", "cov-description", "command"}
+VcrJudged == ~(C.field \in TextFields /\ \E j \in 1..Len(C.s) : C.s[j] >= 55296 /\ C.s[j] <= 57343)
 Verdict == IF C.crashAt # 0 THEN {<<"crash", C.crashAt, C.crashSite>>}
-           ELSE VcrVerdict \cup HarVerdict \cup (IF C.junitOk THEN {} ELSE {<<"junit", 0, "malformed">>})
+           ELSE (IF VcrJudged THEN VcrVerdict ELSE {}) \cup HarVerdict \cup (IF C.junitOk THEN {} ELSE {<<"junit", 0, "malformed">>})
 Report == IF ph = 0 \/ Verdict = {} THEN TRUE ELSE PrintT(<<"DISAGREE", ToJson([i |-> i, v |-> Verdict])>>)
 =============================================================================
